@@ -451,11 +451,20 @@ def batt_cases(ctx, n_sys, faults):
         if rng.random() < 0.5:
             # the system was analysed (above) and is then edited: batt_life must see the edited system
             try:
-                drv_solve.move_leaf(s, rng)
+                import props_solve
+                r = props_solve.apply_some_edit(s, rng)
+                if r is None or r["exc"] is not None or project(s)["anom"]:
+                    continue
+                if bat not in [c["name"] for c in project(s)["comps"]]:
+                    bat = ("rn_" + bat) if ("rn_" + bat) in [c["name"] for c in project(s)["comps"]] else None
+                    if bat is None:
+                        continue
                 with warnings.catch_warnings():
                     warnings.simplefilter("ignore")
                     df = s.solve()
                 ib = max(float(x) for x in df[df["Component"] == bat]["Iout (A)"].values)
+            except drv_solve.HarnessError:
+                raise
             except Exception:
                 continue
             if not (ib > 1e-7):
@@ -688,33 +697,30 @@ def analysis_mix(s, rng, twins, rec):
             pass
     t1 = solve_tab()
     t2 = solve_tab()
-    # nothing the analyses computed on the way (derived tables, caches) may show after a LATER edit: move a leaf to
-    # another parent (the freed node index is re-used) and compare every report with a system rebuilt from scratch
+    # nothing the analyses computed on the way (derived tables, caches) may show after a LATER edit: one edit (a leaf
+    # moved, a component replaced / renamed, a phase-configured component replaced without configuring it again, phases
+    # re-declared, a mux input re-railed / removed - props_solve.apply_some_edit) and every report compared with a
+    # system rebuilt from scratch
     if rng.random() < 0.6:
-        from model import build
-        from rebuild import rebuild, desc_of
-        comps = {c["name"]: c for c in st["comps"]}
-        haskids = {p for c in st["comps"] for p in c["par"]}
-        leaves = [n for n, c in comps.items() if c["par"] and n not in haskids and c["cls"] != "PMux"]
-        hosts = [n for n, c in comps.items() if c["cls"] not in ("PLoad", "ILoad", "RLoad")]
-        if leaves:
-            n = rng.choice(leaves)
-            cand = [h for h in hosts if h != n and h not in comps[n]["par"]]
-            if cand:
-                with rec.paused(), warnings.catch_warnings():
-                    warnings.simplefilter("ignore")
-                    try:
-                        s.del_comp(n)
-                        s.add_comp(rng.choice(cand), comp=build(desc_of(comps[n])), group=comps[n]["group"], rail=comps[n]["rail"])
-                        st_e = project(s)
+        from rebuild import rebuild
+        import props_solve
+        with rec.paused(), warnings.catch_warnings():
+            warnings.simplefilter("ignore")
+            try:
+                r = props_solve.apply_some_edit(s, rng)
+                if r is not None and r["exc"] is None:
+                    st_e = project(s)
+                    if not st_e["anom"]:
                         ra, rb = reports.all_reports(s), reports.all_reports(rebuild(st_e))
-                        for t in reports.twin_cases("C17.NoInterference.AfterEdit", ra, rb, False, "analyses, then %s moved" % n, 0,
+                        for t in reports.twin_cases("C17.NoInterference.AfterEdit", ra, rb, False, "analyses, then %s" % r["what"], 0,
                                                     only=("Solve", "RailRep", "Phases")):   # (params() also lists non-applicable limits, which a rebuild drops)
                             t["id"] = len(twins)
                             t["st"] = st_e
                             twins.append(t)
-                    except Exception:
-                        pass
+            except drv_solve.HarnessError:
+                raise
+            except Exception:
+                pass
     import shutil
     shutil.rmtree(tmp, ignore_errors=True)
     for clause, a, b in (("C17.NoInterference", t0, t1), ("C17.Repeatable", t1, t2)):
